@@ -174,6 +174,41 @@ def build_input(rng, kind, kind2=None):
         tens = it.tensor(indices=names, return_sympy=True)
         e = Expr(tens ** 2 * rng.choice([1, Rational(1, 2), -1]), real=True, target_idx=get_symbols(names))
         return e, f"square:{name}"
+    if kind == "power":
+        # the expansion of a short intermediate with unequal exponents of the integral and the
+        # orbital-energy bracket, V^n / D^m with n != m (e.g. a t2_1 amplitude divided once more by
+        # its own bracket, or multiplied once more by its integral): only min(n, m) amplitudes can be
+        # factored and the rest of the integral / bracket has to stay
+        from adcgen.sympy_objects import AntiSymmetricTensor as _AST
+        name = rng.choice(["t2_1", "t2_1", "t1_2", "t2_2"])
+        it = avail["t2_1"]
+        pool_o, pool_v = list("ijklmn"), list("abcdef")
+        rng.shuffle(pool_o)
+        rng.shuffle(pool_v)
+        names = [pool_o.pop() if x in "ijklmno" else pool_v.pop() for x in it.default_idx]
+        syms = get_symbols(names)
+        ex1 = Expr(it.tensor(indices=names, return_sympy=True), real=True,
+                   target_idx=syms).expand_intermediates(fully_expand=True)
+        vs = [o for o in ex1.sympy.atoms(_AST) if o.name == "V"]
+        if len(vs) != 1:
+            raise RuntimeError("unexpected t2_1 expansion")
+        V = vs[0]
+        dinv = ex1.sympy / V
+        n_, m_ = rng.choice([(1, 2), (1, 3), (2, 3), (2, 1), (3, 1), (1, 2), (2, 3)])
+        term = V ** n_ * dinv ** m_ * rng.choice([1, Rational(1, 2), -3])
+        k = rng.randint(0, len(syms))
+        contr = rng.sample(syms, k)
+        if contr and rng.random() < 0.7:
+            term = term * NonSymmetricTensor("c", tuple(contr))
+            T = [s_ for s_ in syms if s_ not in contr]
+        else:
+            term = term * NonSymmetricTensor("c", tuple(syms))
+            T = list(syms)
+        if rng.random() < 0.3:
+            x, y = _sym(pool_o.pop()), _sym(pool_v.pop())
+            term = term * AntiSymmetricTensor("f", (x,), (y,)) * NonSymmetricTensor("c2", (x, y))
+        e = Expr(term, real=True, target_idx=T)
+        return e, f"power:{name}"
     if kind == "polysquare":
         # a sum containing an intermediate raised to the second power (not expanded: a Polynom)
         name = rng.choice(["t2_1", "t1_2", "p0_2_oo", "p0_2_vv", "t2eri_3", "t2eri_4", "t2sq"])
@@ -281,6 +316,8 @@ def run_case(item):
                                 ["t2_1", "mp_density"], ["t_amplitude", "mp_density"]])
             if kind == "long":
                 names = rng.choice([[tag.split(":")[1]], ["t2_1", tag.split(":")[1]], None])
+            if kind == "power":
+                names = rng.choice([["t2_1"], [tag.split(":")[1]], ["t_amplitude"], None])
             mo = rng.choice([None, 1, 2, 3]) if kind != "long" else rng.choice([None, 2, 3])
             if (rng.random() < 0.45 or kind == "long") and len(ex) > 1:
                 # mixed prefactors: rescale one or two terms of the expanded expression, so that
@@ -356,6 +393,8 @@ def main():
         items.append(("square", ["expand", "reduce"][k % 2], base + 8000 + k))
     for k in range(6 if quick else 40):
         items.append(("polysquare", "expand", base + 9000 + k))
+    for k in range(14 if quick else 120):
+        items.append(("power", "factor", base + 9500 + k))
     results = pmap(run_case, items, limit=90 if quick else 1200, workers=15)
     for r in results:
         if r.get("status") == "timeout":
@@ -382,7 +421,7 @@ def main():
         {"function": "Expr.expand_intermediates, factor_intermediates (factor_itmd, _factor_long_intermediate, _factor_short_intermediate), reduce_expr (run concretely; input and output encoded)",
          "source_sha": driver.src_hash(*FILES)}]
     run.cov["bounds"] = {
-        "inputs": "intermediate tensor (t2_1, t1_2, t2_2, p0_2_oo/vv, t2eri_1/3/4/5/A, t2sq) x free tensors x optional f and a second intermediate, any subset of its indices contracted; library: E(2), E(3), second-order density, ip h/h and pp ph/ph second-order matrix blocks (real, Fock diagonalised)",
+        "inputs": "V^n/D^m with n != m (expansion of t2_1 with unequal exponents of integral and bracket, n, m <= 3); intermediate tensor (t2_1, t1_2, t2_2, p0_2_oo/vv, t2eri_1/3/4/5/A, t2sq) x free tensors x optional f and a second intermediate, any subset of its indices contracted; library: E(2), E(3), second-order density, ip h/h and pp ph/ph second-order matrix blocks (real, Fock diagonalised)",
         "options": "fully / once expanded; factor: None, types, names, mixed subsets; max_order None/1/2/3",
         "model": "2o2v", "shapes": len(items), "z3_timeout_ms": TIMEOUT}
     run.cov["rule"] = "seeded generator; non-trivial = the operation changed the expression; distinct = distinct (operation, input)"
